@@ -55,6 +55,13 @@ type probe struct {
 var table = []probe{
 %s}
 
+// literal probes: templates without parameters (the string is a Go literal / constant of the template source)
+var litTable = []struct {
+	name string
+	f    func() templ.Component
+}{
+%s}
+
 func hx(b []byte) string {
 	if len(b) == 0 {
 		return "-"
@@ -117,6 +124,17 @@ func main() {
 		}
 		return
 	}
+	if mode == "lit" {
+		for _, p := range litTable {
+			var buf bytes.Buffer
+			if rerr := p.f().Render(context.Background(), &buf); rerr != nil {
+				fmt.Fprintf(out, "%%s !%%s\n", p.name, hx([]byte(rerr.Error())))
+			} else {
+				fmt.Fprintf(out, "%%s %%s\n", p.name, hx(buf.Bytes()))
+			}
+		}
+		return
+	}
 	for {
 		line, err := in.ReadString('\n')
 		line = strings.TrimRight(line, "\n")
@@ -150,37 +168,49 @@ func main() {
 }
 `
 
-// buildScratch regenerates every probe template with the repository's own generator (in-process: the harness is
-// compiled against core.Repo()), writes a module replacing templ by the tree under check, and compiles it.
-func buildScratch(probeNames map[string]bool, nonce map[string]bool) (*scratch, []string, error) {
-	dir, err := os.MkdirTemp("", "c01probes")
-	if err != nil {
-		return nil, nil, err
-	}
-	s := &scratch{dir: dir}
-	fail := func(e error) (*scratch, []string, error) { s.Close(); return nil, nil, e }
+type srcFile struct{ name, src string }
+
+// staticProbeFiles reads the hand-written probe templates (one string parameter each).
+func staticProbeFiles() ([]srcFile, error) {
 	src := filepath.Join(core.Root, "harness", "probes", "c01")
 	files, _ := filepath.Glob(filepath.Join(src, "*.templ"))
 	sort.Strings(files)
 	if len(files) == 0 {
-		return fail(fmt.Errorf("no probe templates under %s", src))
+		return nil, fmt.Errorf("no probe templates under %s", src)
 	}
-	os.MkdirAll(filepath.Join(dir, "probes"), 0o755)
-	var names []string
+	var res []srcFile
 	for _, f := range files {
 		b, err := os.ReadFile(f)
 		if err != nil {
-			return fail(err)
+			return nil, err
 		}
-		tf, err := parser.ParseString(string(b))
+		res = append(res, srcFile{filepath.Base(f), string(b)})
+	}
+	return res, nil
+}
+
+// buildScratch regenerates every probe template with the repository's own generator (in-process: the harness is
+// compiled against core.Repo()), writes a module replacing templ by the tree under check, and compiles it.
+// Templates named in probeNames take one string; templates named Lit* take nothing (literal probes).
+func buildScratch(files []srcFile, probeNames map[string]bool, nonce map[string]bool) (*scratch, []string, []string, error) {
+	dir, err := os.MkdirTemp("", "c01probes")
+	if err != nil {
+		return nil, nil, nil, err
+	}
+	s := &scratch{dir: dir}
+	fail := func(e error) (*scratch, []string, []string, error) { s.Close(); return nil, nil, nil, e }
+	os.MkdirAll(filepath.Join(dir, "probes"), 0o755)
+	var names, lits []string
+	for _, f := range files {
+		tf, err := parser.ParseString(f.src)
 		if err != nil {
-			return fail(fmt.Errorf("%s: templ parser: %v", filepath.Base(f), err))
+			return fail(fmt.Errorf("%s: templ parser: %v\n%s", f.name, err, tail(f.src, 1500)))
 		}
 		var buf bytes.Buffer
 		if _, err = generator.Generate(tf, &buf); err != nil {
-			return fail(fmt.Errorf("%s: generator: %v", filepath.Base(f), err))
+			return fail(fmt.Errorf("%s: generator: %v", f.name, err))
 		}
-		out := filepath.Join(dir, "probes", strings.TrimSuffix(filepath.Base(f), ".templ")+"_templ.go")
+		out := filepath.Join(dir, "probes", strings.TrimSuffix(f.name, ".templ")+"_templ.go")
 		if err = os.WriteFile(out, buf.Bytes(), 0o644); err != nil {
 			return fail(err)
 		}
@@ -192,15 +222,20 @@ func buildScratch(probeNames map[string]bool, nonce map[string]bool) (*scratch, 
 				}
 				if probeNames[name] {
 					names = append(names, name)
+				} else if strings.HasPrefix(name, "Lit") {
+					lits = append(lits, name)
 				}
 			}
 		}
 	}
-	var tbl strings.Builder
+	var tbl, ltbl strings.Builder
 	for _, n := range names {
 		fmt.Fprintf(&tbl, "\t{%q, %v, probes.%s},\n", n, nonce[n], n)
 	}
-	if err = os.WriteFile(filepath.Join(dir, "main.go"), []byte(fmt.Sprintf(mainSrc, tbl.String())), 0o644); err != nil {
+	for _, n := range lits {
+		fmt.Fprintf(&ltbl, "\t{%q, probes.%s},\n", n, n)
+	}
+	if err = os.WriteFile(filepath.Join(dir, "main.go"), []byte(fmt.Sprintf(mainSrc, tbl.String(), ltbl.String())), 0o644); err != nil {
 		return fail(err)
 	}
 	gomod := "module c01probes\n\ngo 1.23.0\n\nrequire github.com/a-h/templ v0.0.0\n\nreplace github.com/a-h/templ => " + core.Repo() + "\n"
@@ -215,7 +250,7 @@ func buildScratch(probeNames map[string]bool, nonce map[string]bool) (*scratch, 
 	if out, err := cmd.CombinedOutput(); err != nil {
 		return fail(fmt.Errorf("go build of the generated probes failed: %v: %s", err, tail(string(out), 1500)))
 	}
-	return s, names, nil
+	return s, names, lits, nil
 }
 
 func tail(s string, n int) string {
